@@ -139,6 +139,28 @@ def same_rows(a, b):
     return all(z3.eq(x, y) for x, y in zip(a.doms, b.doms))
 
 
+def provably_same_rows(a, b):
+    """same universe, same order, and the membership predicates are equivalent under the current path
+    condition (a discharged positional-alignment side condition)"""
+    from . import values
+
+    if not (isinstance(a, RowAxis) and isinstance(b, RowAxis)):
+        return False
+    if a.root is not b.root or len(a.doms) != len(b.doms) or a.order != b.order:
+        return False
+    prov = values.PC_PROVIDER[0]
+    if prov is None:
+        return False
+    s = z3.Solver()
+    s.set("timeout", 3000)
+    for f in prov():
+        s.add(f)
+    for f in count_facts():
+        s.add(f)
+    s.add(z3.Or(*[x != y for x, y in zip(a.doms, b.doms)]))
+    return s.check() == z3.unsat
+
+
 # ---- frame ---------------------------------------------------------------------------------------
 
 
@@ -170,7 +192,7 @@ class Frame:
 
     def _new(self, axis=None, cols=None, index=None):
         axis = axis or self.axis
-        f = Frame(axis, {}, index if index is not None else self.index, self.idkey)
+        f = self.__class__(axis, {}, index if index is not None else self.index, self.idkey)
         for k, c in (cols if cols is not None else self.cols).items():
             f.cols[k] = c if isinstance(c, Poison) else V(c.t, (axis,), f.index, c.nan, c.inf, c.meta)
         return f
@@ -308,8 +330,13 @@ class Frame:
                 doms = [z3.BoolVal(False)]
                 new = RowAxis(self.axis.root, doms, self.axis.order)
                 return self._new(new, index=("labels", self.index))
-            new = RowAxis(self.axis.root, doms, self.axis.order)
-            f = Frame(new, {}, ("labels", self.index), self.idkey)
+            # order of a slice at concatenation boundaries: the order of the part(s) it consists of
+            order = self.axis.order
+            if isinstance(order, tuple) and order and order[0] == "concat" and len(order) == 1 + len(self.axis.doms):
+                parts = order[1 + lo : 1 + hi]
+                order = parts[0] if len(parts) == 1 else ("concat",) + tuple(parts)
+            new = RowAxis(self.axis.root, doms, order)
+            f = self.__class__(new, {}, ("labels", self.index), self.idkey)
             for k, c in self.cols.items():
                 if isinstance(c, Poison):
                     f.cols[k] = c
@@ -329,7 +356,33 @@ class Frame:
         # cut inside a single permuted / ordered segment
         if len(lens) == 1:
             return self.rank_cut(interp, sl, lens[0])
-        raise Undecided("row slice that is not at a concatenation boundary")
+        # general case: each bound lies inside some segment (proved under the path condition)
+        def seg_of(b):
+            if isinstance(b, int):
+                return b, None
+            bt = b[1]
+            for k in range(len(lens)):
+                if _provably(interp, z3.And(bounds[k] <= bt, bt <= bounds[k + 1])):
+                    return k, bt - bounds[k]
+            raise Undecided("row slice bound whose segment cannot be determined")
+
+        klo, offlo = seg_of(lo)
+        khi, offhi = seg_of(hi)
+        start_seg = lo if isinstance(lo, int) else klo
+        end_seg_excl = hi if isinstance(hi, int) else khi + 1
+        result_parts = []
+        for k in range(start_seg, end_seg_excl):
+            a = V(offlo) if (not isinstance(lo, int) and k == klo) else None
+            b = V(offhi) if (not isinstance(hi, int) and k == khi) else None
+            segf = self.slice_rows(interp, slice(V(bounds[k]), V(bounds[k + 1])))
+            if a is not None or b is not None:
+                segf = segf.rank_cut(interp, slice(a, b), lens[k])
+            result_parts.append(segf)
+        if not result_parts:
+            raise Undecided("empty general slice")
+        if len(result_parts) == 1:
+            return result_parts[0]
+        return pd_concat(interp)(result_parts)
 
     def rank_cut(self, interp, sl, n):
         _use("DataFrame[a:b] inside one ordered segment: the rows whose position (an injective rank 0..n-1 determined by the order) lies in [a,b)")
@@ -359,6 +412,17 @@ def rank_fn(ax):
     if key not in _RANKS:
         _RANKS[key] = z3.Function(fresh_name("rank"), z3.IntSort(), z3.IntSort())
     return _RANKS[key]
+
+
+def _provably(interp, cond):
+    s = z3.Solver()
+    s.set("timeout", 3000)
+    for f in interp.ctx.pc:
+        s.add(f)
+    for f in count_facts():
+        s.add(f)
+    s.add(z3.Not(cond))
+    return s.check() == z3.unsat
 
 
 def _provably_equal(interp, a, b):
@@ -989,7 +1053,15 @@ def pd_concat(interp):
             for i, d in enumerate(o.axis.doms):
                 doms.append(d)
                 parts.append((o, i))
-        order = ("concat",) + tuple(o.axis.order for o in objs)
+        order = ("concat",)
+        for o in objs:
+            oo = o.axis.order
+            if len(o.axis.doms) == 1:
+                order += (oo,)
+            elif isinstance(oo, tuple) and oo and oo[0] == "concat" and len(oo) == 1 + len(o.axis.doms):
+                order += tuple(oo[1:])
+            else:
+                order += tuple(("part", oo, i) for i in range(len(o.axis.doms)))
         ax = RowAxis(root, doms, order)
         out = Frame(ax, {}, ("concat",) + tuple(o.index for o in objs), objs[0].idkey)
         names = []
